@@ -4,6 +4,7 @@ use crate::dict::*;
 use crate::world::*;
 use sudachi::analysis::stateful_tokenizer::StatefulTokenizer;
 use sudachi::prelude::*;
+use sudachi::analysis::Mode;
 
 pub const CASES_PER_WORLD: usize = 25;
 
@@ -94,19 +95,181 @@ pub fn partition_oracle(text: &str, a: &Analysed) -> Option<(String, String)> {
     None
 }
 
+/// how the tokenizer of a case is set up: the field subset and the split mode can be installed in either order
+/// (`set_mode` after `set_subset` does not re-normalise the subset: the split stage must still find `head_word_length`)
+#[derive(Clone, Copy, Debug)]
+pub enum Setup {
+    /// `StatefulTokenizer::new(dic, mode)`, all fields
+    New,
+    /// `new(dic, C)`, `set_subset(s)`, `set_mode(mode)`
+    SubsetThenMode(sudachi::dic::subset::InfoSubset),
+    /// `new(dic, mode)`, `set_subset(s)`
+    ModeThenSubset(sudachi::dic::subset::InfoSubset),
+}
+
+/// outcome of one staged analysis: a panic while TOKENISING is C03's clause (counted, not judged here), a panic of an
+/// ACCESSOR of a returned morpheme (`begin/end/begin_c/end_c/surface`, `MorphemeList::surface`) breaks C01
+pub enum Staged {
+    TokenizePanic(String),
+    Rejected(String),
+    AccessorPanic(String, String, Vec<usize>),
+    Done(Analysed),
+}
+
+pub fn analyse_staged(dic: &sudachi::dic::dictionary::JapaneseDictionary, warm: &[String], text: &str, mode: sudachi::analysis::Mode, setup: Setup) -> Staged {
+    let r = catch(|| {
+        let mut tok = match setup {
+            Setup::New => StatefulTokenizer::new(dic, mode),
+            Setup::SubsetThenMode(s) => { let mut t = StatefulTokenizer::new(dic, Mode::C); t.set_subset(s); t.set_mode(mode); t }
+            Setup::ModeThenSubset(s) => { let mut t = StatefulTokenizer::new(dic, mode); t.set_subset(s); t }
+        };
+        let mut ml = MorphemeList::empty(dic);
+        for wt in warm {
+            tok.reset().push_str(wt);
+            if tok.do_tokenize().is_ok() {
+                let _ = ml.collect_results(&mut tok);
+            }
+        }
+        tok.reset().push_str(text);
+        if let Err(e) = tok.do_tokenize() {
+            return Err(err_class(&e));
+        }
+        let tables = tok.verif_input().verif_tables();
+        if let Err(e) = ml.collect_results(&mut tok) {
+            return Err(err_class(&e));
+        }
+        Ok((ml, tables))
+    });
+    let (ml, tables) = match r {
+        Err(p) => return Staged::TokenizePanic(p),
+        Ok(Err(e)) => return Staged::Rejected(e),
+        Ok(Ok(x)) => x,
+    };
+    let t2 = (tables.modified.clone(), tables.m2o.clone());
+    match catch(|| {
+        let whole = ml.surface();
+        let base = whole.as_ptr() as usize;
+        let mut morphs = vec![];
+        for m in ml.iter() {
+            let s = m.surface();
+            let off = (s.as_ptr() as usize).wrapping_sub(base);
+            morphs.push((m.begin(), m.end(), s.to_string(), m.begin_c(), m.end_c(), off, m.verif_node_range()));
+        }
+        drop(whole);
+        morphs
+    }) {
+        Err(p) => Staged::AccessorPanic(p, t2.0, t2.1),
+        // the word-info side (`toks`) is not C01's subject and is not defined for every restricted subset
+        Ok(morphs) => Staged::Done(Analysed { tables, morphs, toks: vec![] }),
+    }
+}
+
+/// the path BEFORE `split_path`, observed on a mode-C analysis of the same text by a NEW tokenizer with the SAME field subset
+/// (the path-rewrite plugins read `pos_id` / `normalized_form` of the loaded word infos, so the subset decides what they join):
+/// per node its character range and the key lengths (`head_word_length`, read from the lexicon with all fields) of the units
+/// the word declares for `mode`; nodes made by a plugin and OOV nodes declare none
+pub fn reference_path(dic: &sudachi::dic::dictionary::JapaneseDictionary, text: &str, mode: sudachi::analysis::Mode, setup: Setup) -> Option<Vec<(usize, usize, Vec<usize>)>> {
+    catch(|| {
+        let mut tok = StatefulTokenizer::new(dic, Mode::C);
+        // the fields the main analysis loads: its subset plus the split list of its mode (the reader stores the fixed-width fields
+        // `head_word_length`, `pos_id`, `dictionary_form_word_id` whenever it walks past them, so asking for the split list of mode A/B
+        // makes `pos_id` visible to the numeral joiner even when the caller's subset does not name it)
+        let split = match mode { Mode::A => sudachi::dic::subset::InfoSubset::SPLIT_A, Mode::B => sudachi::dic::subset::InfoSubset::SPLIT_B, Mode::C => sudachi::dic::subset::InfoSubset::empty() };
+        match setup { Setup::New => {}, Setup::SubsetThenMode(s) | Setup::ModeThenSubset(s) => { tok.set_subset(s | split); } }
+        tok.reset().push_str(text);
+        if tok.do_tokenize().is_err() { return None; }
+        let mut ml = MorphemeList::empty(dic);
+        if ml.collect_results(&mut tok).is_err() { return None; }
+        let mut out = vec![];
+        for m in ml.iter() {
+            let r = m.verif_node_range();
+            let mut units = vec![];
+            if !m.is_oov() && mode != Mode::C {
+                let wid = m.word_id();
+                if let Ok(Ok(ids)) = catch(|| dic.lexicon().get_word_info(wid).map(|wi| match mode { Mode::A => wi.a_unit_split().to_vec(), _ => wi.b_unit_split().to_vec() })) {
+                    for w in ids {
+                        units.push(dic.lexicon().get_word_info(w).ok()?.head_word_length());
+                    }
+                }
+            }
+            out.push((r.0, r.1, units));
+        }
+        Some(out)
+    }).ok().flatten()
+}
+
+/// which `NodeSplitIterator::next` the linked tree has (textual probe, as C03/C09 do)
+fn split_variant() -> &'static str {
+    static P: std::sync::OnceLock<bool> = std::sync::OnceLock::new();
+    if *P.get_or_init(|| {
+        let p = format!("{}/src/analysis/node.rs", crate::c07::repo_sudachi_dir());
+        std::fs::read_to_string(p).map(|s| s.contains(".min(self.byte_end as usize)")).unwrap_or(false)
+    }) { "d6fix" } else { "cur" }
+}
+
+/// the tables of a buffer that holds `q` unchanged (what `MorphemeList::lookup` builds: no input-text plugin runs)
+fn ident_tables(q: &str) -> sudachi::input_text::VerifTables {
+    sudachi::input_text::VerifTables {
+        original: q.to_string(), modified: q.to_string(), modified_2_len: 0, m2o: (0..=q.len()).collect(), m2o_2: vec![], mod_chars: q.chars().collect(),
+        mod_c2b: vec![], mod_b2c: vec![], mod_bow: vec![], mod_cat: vec![], mod_cat_continuity: vec![], replaces_len: 0, state: 2,
+    }
+}
+
+fn show_path(p: &[(usize, usize, Vec<usize>)]) -> String {
+    p.iter().map(|(b, e, u)| format!("{}:{}:{}", b, e, if u.is_empty() { "-".to_string() } else { join(u.iter(), "+") })).collect::<Vec<_>>().join(";")
+}
+
+/// answer of a `part` line from the accessors of the real morphemes
+fn part_answer(a: &Analysed) -> String {
+    format!(
+        "ok nodes={} acc={} surf={}",
+        a.morphs.iter().map(|m| format!("{}:{}:{}:{}", m.6 .0, m.6 .1, m.6 .2, m.6 .3)).collect::<Vec<_>>().join(";"),
+        a.morphs.iter().map(|m| format!("{}:{}:{}:{}:{}:{}", m.0, m.1, m.3, m.4, m.5, m.5 + m.2.len())).collect::<Vec<_>>().join(";"),
+        hex(a.morphs.iter().map(|m| m.2.clone()).collect::<String>().as_bytes())
+    )
+}
+
+fn width_counters(run: &mut Run, text: &str) {
+    let mut w = [0u64; 5];
+    for c in text.chars() { w[c.len_utf8()] += 1; }
+    for k in 1..5 { if w[k] > 0 { run.bump(&format!("text:has-{}-byte-characters", k)); } }
+    run.bump(&format!("text:bytes:{}", match text.len() { 0 => "0", 1..=3 => "1-3", 4..=15 => "4-15", 16..=63 => "16-63", 64..=255 => "64-255", _ => "256+" }));
+    if text.chars().map(|c| c.len_utf8()).collect::<std::collections::BTreeSet<_>>().len() >= 3 { run.bump("text:mixes-3+-widths"); }
+}
+
+/// texts every world analyses first: each input-text plugin alone and stacked, 1-/2-/3-/4-byte characters next to each other,
+/// NFKC expansions and contractions, deletions at the beginning / in the middle / at the end, texts that normalise to nothing
+pub const DIRECTED: &[&str] = &[
+    "",
+    "㍿(かぶ)12,345ァアー",
+    "ーーー",                              // only prolonged sound marks: deleted completely where the plugin replaces runs by ""
+    "〜～ーあ〜～ー",                       // runs at both ends
+    "東（とう）京（きょう）都",             // two readings to delete, brackets of 3 bytes
+    "ＡＢＣーーかもしれない",               // width-changing NFKC + a later plugin's edit (seeded C01a)
+    "ｽｰｰﾊﾟｰ",                              // half-width katakana + voiced mark + doubled mark
+    "aé東𠮷👍🏻İǆ㌔\u{0301}",                // 1-, 2-, 3-, 4-byte characters, lower-casing to two scalars, expansion x3
+    "\u{FDFA}1",                            // NFKC x18
+    "東京都東京都京都東京",                  // words with A/B units, several times
+    "12,345.67円と一二三千十",              // numerals for the numeral joiner
+    "アイウaアイウ",                        // katakana runs for the OOV joiner
+];
+
 pub fn run(run: &mut Run) {
-    run.rule = "random worlds (lexicon with prefix families/homographs/splits, random matrix, random input-text, OOV and \
-path-rewrite plugin stacks, 0-2 user dictionaries) x random texts over word characters and normalisation/OOV-relevant \
-characters x modes A/B/C x history (a new tokenizer, or one that analysed 1-4 other texts of other lengths before); non-trivial = accepted, at least 2 morphemes and the normalised text differs from the input or a \
+    use sudachi::dic::subset::InfoSubset;
+    run.rule = "random worlds (lexicon with prefix families/homographs/splits incl. ill-formed declarations, random square and non-square matrix, random input-text \
+(incl. a deleting prolonged-sound-mark plugin), OOV and path-rewrite plugin stacks, 0-2 user dictionaries, every 12th world 14 = the maximum) x 12 directed texts per world + random texts over word characters and \
+normalisation/OOV-relevant characters of 1-4 bytes x modes A/B/C x tokenizer set-up (all fields | set_subset(restricted) then set_mode | set_mode then set_subset) x history (a new tokenizer, or one that analysed 1-4 other \
+texts of other lengths before) + dictionary look-ups (MorphemeList::lookup, split_into of every found word); non-trivial = accepted, at least 2 morphemes and the normalised text differs from the input or a \
 morpheme comes from a split/merge; distinct by line".into();
     let n = run.opts.count;
-    let opts = WorldOpts::default();
     let mut cur_world: Option<(usize, Result<World, String>)> = None;
     for idx in 0..n {
         if !run.wants(idx) { continue; }
         let widx = idx / CASES_PER_WORLD;
         if cur_world.as_ref().map(|w| w.0) != Some(widx) {
             cur_world = None; // drop the previous work directory first
+            // every 12th world is loaded with the maximum number of dictionaries; two worlds in three declare units that are unrelated words
+            let opts = WorldOpts { users_exact: if widx % 12 == 5 { Some(14) } else { None }, unrelated_units: widx % 3 != 0, ..WorldOpts::default() };
             cur_world = Some((widx, world_for(run.opts.seed, &run.prop.clone(), widx, &opts)));
         }
         let w = match &cur_world.as_ref().unwrap().1 {
@@ -117,13 +280,27 @@ morpheme comes from a split/merge; distinct by line".into();
             }
         };
         let mut rng = Rng::for_case(run.opts.seed, idx);
-        let text = match idx % CASES_PER_WORLD {
-            0 => String::new(),
-            1 => "㍿(かぶ)12,345ァアー".to_string(),
-            _ => gen_text(&mut rng, w, 14),
-        };
+        let k = idx % CASES_PER_WORLD;
+        let split_rows: Vec<&Row> = w.lex.rows.iter().filter(|r| r.indexed() && (r.split_a != "*" || r.split_b != "*")).collect();
+        let text = if k < DIRECTED.len() { DIRECTED[k].to_string() }
+            else if k % 3 == 0 && !split_rows.is_empty() {
+                // words that declare A/B units (well-formed or not), between other material: the split stage is reached only when
+                // such a word is on the best path
+                run.bump("text:built-around-words-with-split-declarations");
+                let mut s = String::new();
+                for _ in 0..rng.range(1, 3) {
+                    if rng.chance(1, 2) { s.push_str(&gen_text(&mut rng, w, 3)); }
+                    s.push_str(&rng.pick(&split_rows).surface);
+                }
+                if rng.chance(1, 2) { s.push_str(&gen_text(&mut rng, w, 3)); }
+                s
+            }
+            else if k == CASES_PER_WORLD - 1 { run.bump("text:long"); let ln = 40 + rng.below(120); gen_text(&mut rng, w, ln) }
+            else { gen_text(&mut rng, w, 14) };
+        if k < DIRECTED.len() { run.bump("text:directed"); }
         let mode = mode_of(rng.below(3));
         for d in &w.desc { run.bump(d); }
+        width_counters(run, &text);
         // two cases in three run on a tokenizer + result list with a history of 1..4 earlier texts of other lengths
         let mut warm: Vec<String> = vec![];
         if idx % 3 != 0 {
@@ -132,17 +309,36 @@ morpheme comes from a split/merge; distinct by line".into();
             }
         }
         run.bump(&format!("history:{}-earlier-texts", warm.len()));
-        match analyse_after(&w.dic, &warm, &text, mode) {
-            Err(p) => {
-                run.bump("outcome:panic");
+        // one case in three restricts the word-info fields; none of the subsets asks for SURFACE or HEAD_WORD_LENGTH
+        let restricted = [InfoSubset::empty(), InfoSubset::POS_ID, InfoSubset::NORMALIZED_FORM | InfoSubset::READING_FORM,
+            InfoSubset::DIC_FORM_WORD_ID, InfoSubset::SPLIT_A, InfoSubset::SPLIT_B | InfoSubset::SYNONYM_GROUP_ID, InfoSubset::WORD_STRUCTURE];
+        let setup = match rng.below(6) {
+            0 => Setup::SubsetThenMode(*rng.pick(&restricted)),
+            1 => Setup::ModeThenSubset(*rng.pick(&restricted)),
+            _ => Setup::New,
+        };
+        run.bump(&format!("setup:{}:mode-{:?}", match setup { Setup::New => "all-fields".to_string(), Setup::SubsetThenMode(s) => format!("set_subset({:#x})-then-set_mode", s.bits()), Setup::ModeThenSubset(s) => format!("set_mode-then-set_subset({:#x})", s.bits()) }, mode));
+        let ctx = |what: &str| format!("{} | text={:?} mode={:?} setup={:?} earlier texts on the same tokenizer={:?} world={}", what, text, mode, setup, warm, w.desc.join(" "));
+        match analyse_staged(&w.dic, &warm, &text, mode, setup) {
+            Staged::TokenizePanic(p) => {
+                run.bump("outcome:panic-while-tokenising(C03)");
                 run.bump(&format!("panic:{}", p.chars().take(60).collect::<String>()));
             }
-            Ok(Err(e)) => run.bump(&format!("outcome:err:{}", e)),
-            Ok(Ok(a)) => {
+            Staged::Rejected(e) => run.bump(&format!("outcome:err:{}", e)),
+            Staged::AccessorPanic(p, tm, tm2o) => {
+                run.bump("outcome:accessor-panic");
+                let payload = format!("orig={} cur={} m2o={} path=? split={}", hex(text.as_bytes()), hex(tm.as_bytes()), join(tm2o.iter(), ","), split_variant());
+                run.case(idx, "part", &payload, "PANIC accessor", true);
+                run.fail(idx, "c01:accessor-panic", &ctx(&format!("an accessor of a returned morpheme panicked: {}", p.chars().take(160).collect::<String>())));
+            }
+            Staged::Done(a) => {
                 run.bump("outcome:ok");
                 run.bump(&format!("morphemes:{}", a.morphs.len().min(12)));
                 let changed = a.tables.modified != text;
                 if changed { run.bump("normalisation-changed-text"); }
+                if a.tables.modified.len() != text.len() { run.bump("normalisation-changed-byte-length"); }
+                if a.tables.modified.is_empty() && !text.is_empty() { run.bump("normalised-text-empty(input not empty)"); }
+                if a.morphs.iter().any(|m| m.0 == m.1) { run.bump("has-empty-range-morpheme"); }
                 let payload = format!(
                     "orig={} cur={} m2o={} nodes={}",
                     hex(text.as_bytes()), hex(a.tables.modified.as_bytes()), join(a.tables.m2o.iter(), ","),
@@ -156,7 +352,97 @@ morpheme comes from a split/merge; distinct by line".into();
                 );
                 run.case(idx, "morph", &payload, &ans, a.morphs.len() >= 2 && changed);
                 if let Some((k, what)) = partition_oracle(&text, &a) {
-                    run.fail(idx, &format!("c01:{}", k), &format!("{} | text={:?} mode={:?} earlier texts on the same tokenizer={:?} world={}", what, text, mode, warm, w.desc.join(" ")));
+                    run.fail(idx, &format!("c01:{}", k), &ctx(&what));
+                }
+                // the same observation COMPUTED by the model from the path before split_path (resolve_best_path's byte ranges,
+                // split_path / NodeSplitIterator::next, every accessor incl. begin_c/end_c)
+                match reference_path(&w.dic, &text, mode, setup) {
+                    None => run.bump("part:no-reference-path"),
+                    Some(path) => {
+                        let nsplit = path.iter().filter(|p| p.2.len() >= 2).count();
+                        if nsplit > 0 { run.bump("part:path-has-a-word-that-is-split"); }
+                        let cur_bytes = a.tables.modified.as_bytes();
+                        let c2b: Vec<usize> = a.tables.modified.char_indices().map(|x| x.0).chain(std::iter::once(cur_bytes.len())).collect();
+                        // ill-formed declaration on the path: the key lengths of the units do not add up to the word
+                        if path.iter().any(|p| p.2.len() >= 2 && p.0 < c2b.len() && p.1 < c2b.len() && p.2.iter().sum::<usize>() != c2b[p.1] - c2b[p.0]) {
+                            run.bump("part:path-has-an-ILL-FORMED-split-declaration");
+                        }
+                        if path.len() != a.morphs.len() { run.bump("part:split-changed-the-number-of-tokens"); }
+                        let payload = format!("orig={} cur={} m2o={} path={} split={}", hex(text.as_bytes()), hex(cur_bytes), join(a.tables.m2o.iter(), ","), show_path(&path), split_variant());
+                        run.case(idx, "part", &payload, &part_answer(&a), a.morphs.len() >= 2 && (changed || nsplit > 0));
+                    }
+                }
+                // code points: begin_c/end_c count the characters of the ORIGINAL text before begin/end
+                for (i, m) in a.morphs.iter().enumerate() {
+                    if m.0 <= text.len() && m.1 <= text.len() && text.is_char_boundary(m.0) && text.is_char_boundary(m.1) {
+                        if m.3 != text[..m.0].chars().count() || m.4 != text[..m.1].chars().count() {
+                            run.fail(idx, "c01:codepoints", &ctx(&format!("morpheme {}: bytes {}..{} but begin_c/end_c = {}..{}", i, m.0, m.1, m.3, m.4)));
+                        }
+                    }
+                }
+            }
+        }
+        // dictionary look-ups: `MorphemeList::lookup` results are morphemes of the QUERY (begin 0, end = its length, surface = the query),
+        // and `split_into` of a found word must tile it - on a new list, or on the list of an earlier analysis after clear()
+        if idx % 5 == 2 {
+            let query = if rng.chance(3, 4) { rng.pick(&w.lex.rows).surface.clone() } else { gen_text(&mut rng, w, 3) };
+            let recycled = rng.chance(1, 2);
+            let lsub = if rng.chance(1, 3) { *rng.pick(&restricted) | InfoSubset::SPLIT_A | InfoSubset::SPLIT_B } else { InfoSubset::all() };
+            run.bump(&format!("lookup:{}-list", if recycled { "recycled" } else { "new" }));
+            let r = catch(|| {
+                let mut ml = MorphemeList::empty(&w.dic);
+                if recycled {
+                    let mut tok = StatefulTokenizer::new(&w.dic, mode);
+                    tok.reset().push_str(&text);
+                    if tok.do_tokenize().is_ok() { let _ = ml.collect_results(&mut tok); }
+                    ml.clear();
+                }
+                let found = match ml.lookup(&query, lsub) { Ok(n) => n, Err(e) => return Err(err_class(&e)) };
+                let mut res = vec![];
+                for i in 0..ml.len() {
+                    let m = ml.get(i);
+                    let (b, e, bc, ec, s, nr) = (m.begin(), m.end(), m.begin_c(), m.end_c(), m.surface().to_string(), m.verif_node_range());
+                    let mut subs = vec![];
+                    for md in [Mode::A, Mode::B] {
+                        let mut out = ml.empty_clone();
+                        let did = m.split_into(md, &mut out).map_err(|e| err_class(&e))?;
+                        let us: Vec<_> = out.iter().map(|u| (u.begin(), u.end(), u.surface().to_string(), u.begin_c(), u.end_c(), 0usize, u.verif_node_range())).collect();
+                        let wi = m.get_word_info();
+                        let ids: Vec<_> = match md { Mode::A => wi.a_unit_split().to_vec(), _ => wi.b_unit_split().to_vec() };
+                        let mut units = vec![];
+                        for wd in ids { units.push(w.dic.lexicon().get_word_info(wd).map_err(|e| err_class(&e))?.head_word_length()); }
+                        subs.push((md, did, us, units));
+                    }
+                    res.push((b, e, bc, ec, s, nr, subs));
+                }
+                Ok((found, res))
+            });
+            match r {
+                Err(p) => { run.bump("lookup:panic"); run.fail(idx, "c01:lookup-panic", &format!("lookup({:?}) or an accessor of its results panicked: {} | world={}", query, p.chars().take(160).collect::<String>(), w.desc.join(" "))); }
+                Ok(Err(e)) => run.bump(&format!("lookup:err:{}", e)),
+                Ok(Ok((found, res))) => {
+                    // the buffer of a look-up runs no input-text plugin (reset, push_str, start_build, build): text = query, identity map
+                    let ident: Vec<usize> = (0..=query.len()).collect();
+                    run.bump(&format!("lookup:found-{}", found.min(4)));
+                    for (i, (b, e, bc, ec, s, nr, subs)) in res.iter().enumerate() {
+                        if *b != 0 || *e != query.len() || s != &query || *bc != 0 || *ec != query.chars().count() {
+                            run.fail(idx, "c01:lookup-range", &format!("lookup({:?}) result {}: begin/end {}..{} begin_c/end_c {}..{} surface {:?} | world={}", query, i, b, e, bc, ec, s, w.desc.join(" ")));
+                        }
+                        for (md, did, us, units) in subs {
+                            if !*did { continue; }
+                            run.bump(&format!("lookup:split_into-{:?}-{}-units", md, us.len().min(4)));
+                            if units.iter().sum::<usize>() != query.len() { run.bump("lookup:ILL-FORMED-split-declaration"); }
+                            let a = Analysed { tables: ident_tables(&query), morphs: us.iter().map(|u| { let mut u = u.clone(); u.5 = u.0; u }).collect(), toks: vec![] };
+                            if let Some((k, what)) = partition_oracle(&query, &a) {
+                                run.fail(idx, &format!("c01:lookup-split:{}", k), &format!("split_into({:?}) of lookup({:?}) result {}: {} | world={}", md, query, i, what, w.desc.join(" ")));
+                            }
+                            // model: the path is the one found word
+                            let payload = format!("orig={} cur={} m2o={} path={} split={}", hex(query.as_bytes()), hex(query.as_bytes()), join(ident.iter(), ","),
+                                show_path(&[(nr.0, nr.1, if units.len() >= 2 { units.clone() } else { vec![] })]), split_variant());
+                            // a word declaring ONE unit: split_into yields that unit on the whole range (the model keeps the node)
+                            run.case(idx, "part", &payload, &part_answer(&a), us.len() >= 2);
+                        }
+                    }
                 }
             }
         }
